@@ -50,11 +50,26 @@ pub struct Plan {
     /// writer: device accepts this many bytes in total, then fails (disk full);
     /// reader: stream is truncated after this many bytes (then Ok(0) for ever)
     pub capacity: Option<u64>,
+    /// reader flavour: 0 = the simulated reader itself; 1 = `std::io::Chain` of two simulated readers cut at
+    /// `cut`; 2 = `BufReader` (capacity `cut` + 1) around it; 3 = `Take` around it (limit = everything).
+    /// The std adaptors answer `size_hint`, `read_vectored` etc. the way real readers do.
+    #[serde(default)]
+    pub flavour: u8,
+    #[serde(default)]
+    pub cut: u32,
+    /// reader: once every byte of the stream has been delivered, any further call fails with WouldBlock
+    /// (a drained non-blocking source) instead of returning Ok(0)
+    #[serde(default)]
+    pub strict_end: bool,
+    /// writer: `write_vectored` gathers across the slices it is given (with the same faults), as sockets and
+    /// files do, instead of std's default (first non-empty slice only)
+    #[serde(default)]
+    pub gather: bool,
 }
 
 impl Plan {
     pub fn is_clean(&self) -> bool {
-        self.acts.is_empty() && self.max_chunk.is_none() && self.capacity.is_none()
+        self.acts.is_empty() && self.max_chunk.is_none() && self.capacity.is_none() && self.flavour == 0 && !self.strict_end && !self.gather
     }
 }
 
@@ -86,6 +101,8 @@ pub enum Op {
     Snapshot,
     /// compare the current calendar with snapshot i: == iff models are equal
     CmpSnap(u32),
+    /// `snapshot_i.clone_from(&current)`: the snapshot must become the current set
+    CloneFrom(u32),
     /// contains / first_after / count on snapshot i (another calendar than the one just used: anything a
     /// calendar remembers must be its own)
     SnapQuery(u32, D),
